@@ -11,6 +11,7 @@ import sys
 
 sys.path.insert(0, os.path.dirname(os.path.abspath(__file__)))
 import anyio  # noqa: E402
+from guard import guarded_run  # noqa: E402
 from asphalt.core import Context, add_teardown_callback, start_service_task  # noqa: E402
 from director import Director, backend_options, settle  # noqa: E402
 
@@ -59,6 +60,8 @@ def make_task(d, sid, sv, stop):
         except anyio.get_cancelled_exc_class():
             d.obs("CancelSeen", sid)
             await cleanup()
+            if sv.get("crash_on_cancel"):
+                raise Crash(sid)      # its cleanup fails: the exception must not vanish
             raise
     return task
 
@@ -172,7 +175,7 @@ def main():
             async def runner():
                 with anyio.fail_after(30):
                     return await run_case(case)
-            res.append(anyio.run(runner, backend=case["backend"], backend_options=backend_options(case["backend"])))
+            res.append(guarded_run(runner, backend=case["backend"], backend_options=backend_options(case["backend"])))
         except BaseException:  # noqa
             import traceback
             res.append({"backend": case["backend"], "svcs": case["svcs"], "prog": case["prog"],
